@@ -216,9 +216,9 @@ def run(ctx):
             forced = DISTINCT_CRASH_CLASSES[1 + (slot // 2) % 2] if slot % 2 == 0 else \
                 DISTINCT_CRASH_CLASSES[(slot // 2) % len(DISTINCT_CRASH_CLASSES)]
             if slot % 5 == 3:
-                from ..gen.world import library_crash_class
+                from ..gen.world import library_crash_class, library_crash_class_2
 
-                forced = library_crash_class()
+                forced = library_crash_class() if (slot // 5) % 2 == 0 else library_crash_class_2()
             case.sync.crash_class = case.asyn.crash_class = forced
             ctx.count("crash_class:" + forced.__name__)
         try:
